@@ -161,6 +161,18 @@ class PeersDriver(ClientDriver):
             pool = rng.choice(['a', 'a', 'a', 'b', 'b', 'v6', 'priv', 'odd'])
             ip = pools[pool](i)
             style = rng.random()
+            if op.get('big') and i >= 3:
+                # motif: many good clearnet servers crowded into two /16s plus many good onion servers
+                if i % 4 == 0:
+                    host, ip = f'peer{i}abcdefghijklmnop.onion', None
+                else:
+                    ip = f'23.{45 + i % 2}.{i}.{1 + i % 200}'
+                    host = ip if i % 3 else f'p{i}.example{i % 3}.org'
+                mp = ModelPeer(self, i, host, ip, 'good')
+                self.models.append(mp)
+                self.by_host[host] = mp
+                self.register(mp)
+                continue
             if op.get('crowd') and i < 3:
                 # motif: two good servers in one /16 and a good named server elsewhere (it moves in later)
                 ip = pools['a'](i) if i < 2 else pools['b'](i)
@@ -187,6 +199,10 @@ class PeersDriver(ClientDriver):
         seeds = rng.sample(self.models, min(len(self.models), op.get('seeds', 3)))
         if op.get('crowd'):
             seeds = self.models[:3] + [m for m in seeds if m.idx >= 3]
+        if op.get('big'):
+            seeds = self.models[:12]
+            for mp in self.models:
+                mp.gossip = rng.sample(self.models, 8)
         worldmod.SimCoin.PEERS = [mp.real_name() for mp in seeds]
 
     def register(self, mp):
@@ -383,6 +399,10 @@ class PeersFamily(SubsFamily):
         if not k['extra_env']['REPORT_SERVICES']:
             del k['extra_env']['REPORT_SERVICES']
         npeers = rng.choice([6, 10, 16, 24])
+        big = rng.random() < 0.12
+        if big:
+            npeers = rng.choice([72, 90])
+            k['tor_proxy_port'] = 9050
         plan = [dict(op='mine', n=6, ntx=[1, 2, 1, 0, 2, 1], seed=rng.getrandbits(32), keep=True),
                 dict(op='start', keep=True), dict(op='settle', keep=True),
                 dict(op='features_probe', seed=rng.getrandbits(32))]
@@ -411,7 +431,7 @@ class PeersFamily(SubsFamily):
                     plan.append(dict(op='mine', n=1, ntx=[1], at=at, seed=rng.getrandbits(32)))
             plan.append(dict(op='hours', h=rng.choice([0.5, 1.5, 2.0, 3.5])))
         return dict(family='peers', knobs=k, plan=plan,
-                    population=dict(n=npeers, crowd=crowd, seed=rng.getrandbits(32), seeds=rng.randint(1, 4),
+                    population=dict(n=npeers, crowd=crowd, big=big, seed=rng.getrandbits(32), seeds=rng.randint(1, 4),
                                     p_onion=rng.choice([0.0, 0.15, 0.5])))
 
 
